@@ -141,7 +141,11 @@ def solve_quiet(p, guess, method):
         warnings.simplefilter('ignore')
         with np.errstate(all='ignore'):
             try:
-                return p.solve(guess=guess, method=method, options={'disp': False})
+                # iteration caps: a root finder that does not converge on some random system must not stall the check
+                # (non-converged solves are skipped and counted; the properties speak about converged ones)
+                opts = {'krylov': {'maxiter': 250}, 'anderson': {'maxiter': 400}, 'broyden1': {'maxiter': 400}, 'df-sane': {'maxfev': 3000},
+                        'hybr': {'maxfev': 6000}, 'lm': {'maxiter': 6000}}.get(method, {})
+                return p.solve(guess=guess, method=method, options=dict(opts, disp=False))
             except Exception as e:
                 return e
 
